@@ -78,6 +78,9 @@ func selectorPaths(p *packages.Package, node ast.Node, root types.Object) []stri
 		if !ok {
 			return true
 		}
+		if s, ok := env.resolve(se); ok && s == "L" {
+			return false
+		}
 		if s, ok := env.resolve(se); ok && strings.HasPrefix(s, "L.") {
 			pth := strings.TrimPrefix(s, "L.")
 			if !seen[pth] {
